@@ -40,6 +40,11 @@ def fill_preamble(text, repo, report_items):
             s, e = X.find_item(src, "enum", name)
             txt = X._strip_attrs_and_docs(src[s:e], rep)
             txt = X._visibility(txt)
+            if opts.get("nodefaults"):
+                i = txt.index("{")
+                head = re.sub(r"\s*=\s*(\(\)|\w+)", "", txt[:i])
+                rep.append({"rule": "R7", "before": txt[:i].strip(), "after": head.strip()})
+                txt = head + txt[i:]
             derive = opts.get("derive", "PartialEq,Eq,Structural,Clone,Copy")
             if derive != "none":
                 txt = f"#[derive({derive.replace(',', ', ')})]\n" + txt
@@ -68,8 +73,11 @@ def fill_preamble(text, repo, report_items):
             txt = "\n".join(parts)
         else:
             raise X.ExtractError(f"unknown EXTRACT kind {kind}")
-        for a, b in [kv.split("=>") for kv in opts.get("subst", "").split(";;") if "=>" in kv]:
+        for a, b in [kv.split("=>") for kv in opts.get("subst", "").replace("%20", " ").split(";;") if "=>" in kv]:
+            if a not in txt:
+                raise X.ExtractError(f"preamble substitution anchor not found: {a!r}")
             txt = txt.replace(a, b)
+            rep.append({"rule": "R8", "before": a, "after": b})
         out.append(f"// ---- extracted from {path} ({kind} {name}) ----")
         out.append(txt)
     return "\n".join(out)
